@@ -692,3 +692,13 @@ PLAN['C12']['stages'] = lambda tier, seed: (
 PLAN['C12']['rule'] = ('spec/MapLockInd.tla restates the lock protocol with type annotations and Apalache discharges an inductive invariant '
                        'that contains AtomicBlocks - for an unbounded number of blocks and queries, 3 readers (and fails to when readers '
                        'ignore the writer: negative demonstration). ' + PLAN['C12']['rule'])
+
+
+# C05 also from states reached through an undo or a serialization round trip
+_c05b = PLAN['C05']['stages']
+PLAN['C05']['stages'] = lambda tier, seed: (
+    _c05b(tier, seed) +
+    [core('core_enc_undo', ['mod', 'enc', 'undo', 'restore'], 4 if tier == 'quick' else 5, 2, stack=1, und=1, rst=1, undone=True,
+          invariants=False)])
+PLAN['C05']['bounds'] = {k: v + '; every encoding also from states reached through one undo (every undone block) or one serialization round trip: n<=%d, adds 0..2' % (4 if k == 'quick' else 5)
+                         for k, v in PLAN['C05']['bounds'].items()}
